@@ -30,6 +30,26 @@ Section OrderLaws.
 End OrderLaws.
 
 (* ------------------------------------------------------------------------------------ *)
+(* the exact value of a number                                                          *)
+(* ------------------------------------------------------------------------------------ *)
+(* Every finite binary64 value is an integer multiple of 2^-1074.  [fkey] is the value of a
+   bit pattern in that unit (sign * significand * 2^(biased exponent - 1)); the formula
+   also orders the infinities beyond every finite value and the NaNs beyond the infinities
+   (by payload), like IEEE totalOrder.  Integers are scaled by SC = 2^1074, so two numbers
+   of any representation compare by [nkey]. *)
+Definition fmag (bits : Z) : Z :=
+  let e := f_exp bits in let m := f_man bits in
+  if e =? 0 then m else (2 ^ 52 + m) * 2 ^ (e - 1).
+Definition fkey (bits : Z) : Z := if f_neg bits then - fmag bits else fmag bits.
+Definition SC : Z := 2 ^ 1074.
+Definition nkey (v : value) : Z :=
+  match v with
+  | VInt _ z => z * SC
+  | VFloat b => fkey b
+  | _ => 0
+  end.
+
+(* ------------------------------------------------------------------------------------ *)
 (* the domain: well-formed values                                                       *)
 (* ------------------------------------------------------------------------------------ *)
 Definition f_valid (bits : Z) : bool := (0 <=? bits) && (bits <? 2 ^ 64).
@@ -131,12 +151,14 @@ Section FilterLaws.
   | Ordered_nil : Ordered []
   | Ordered_cons : forall x l, Forall (fun y => cmp x y <> Gt) l -> Ordered l -> Ordered (x :: l).
 
-  (* stability: elements that compare Equal to [x] appear in the output in input order *)
+  (* stability: the elements that compare Equal to an input element appear in input order *)
   Definition equals_of (x : A) (l : list A) : list A :=
     filter (fun y => match cmp x y with Eq => true | _ => false end) l.
   Definition Stable (input output : list A) : Prop :=
-    forall x, equals_of x output = equals_of x input.
+    forall x, In x input -> equals_of x output = equals_of x input.
 
+  (* sort: a stable ordered permutation.  With reverse=true [cmp] is the reversed comparison,
+     so "ordered" reads descending and stability is unchanged. *)
   Definition SortedStablePerm (input output : list A) : Prop :=
     Permutation input output /\ Ordered output /\ Stable input output.
 
@@ -151,8 +173,52 @@ Section FilterLaws.
   | NoDupKey_nil : NoDupKey key []
   | NoDupKey_cons : forall x l, Forall (fun y => cmp (key x) (key y) <> Eq) l -> NoDupKey key l -> NoDupKey key (x :: l).
 
+  (* unique: an order-preserving duplicate-free subsequence that still represents every key *)
+  Definition UniqueLaw (key : A -> A) (input output : list A) : Prop :=
+    Subseq output input /\ NoDupKey key output /\
+    Forall (fun x => Exists (fun y => cmp (key x) (key y) = Eq) output) input.
+
   (* min / max: a member that bounds all others *)
   Definition IsMin (l : list A) (m : A) : Prop := In m l /\ Forall (fun y => cmp m y <> Gt) l.
   Definition IsMax (l : list A) (m : A) : Prop := In m l /\ Forall (fun y => cmp y m <> Gt) l.
+
+  (* groupby: a partition by key.  The groups, concatenated, are the input stably sorted by
+     key; a group is non-empty and all its keys are Equal to its label; the labels are
+     strictly ascending (so no two groups share a key). *)
+  Inductive StrictAsc : list A -> Prop :=
+  | SA_nil : StrictAsc []
+  | SA_one : forall a, StrictAsc [a]
+  | SA_cons : forall a b l, cmp a b = Lt -> StrictAsc (b :: l) -> StrictAsc (a :: b :: l).
+
+  Definition group_ok (key : A -> A) (g : A * list A) : Prop :=
+    snd g <> [] /\ Forall (fun x => cmp (fst g) (key x) = Eq) (snd g).
 End FilterLaws.
 
+Definition GroupLaw {A} (cmp : A -> A -> comparison) (key : A -> A) (input : list A) (groups : list (A * list A)) : Prop :=
+  SortedStablePerm (fun a b => cmp (key a) (key b)) input (concat (map snd groups)) /\
+  Forall (group_ok cmp key) groups /\
+  StrictAsc cmp (map fst groups).
+
+(* batch / slice: runs whose concatenation is the input *)
+Definition BatchLaw {A} (count : Z) (fill : option A) (l : list A) (runs : list (list A)) : Prop :=
+  match fill with
+  | None => concat runs = l /\ Forall (fun r => 0 < lenZ r <= count) runs /\
+            Forall (fun r => lenZ r = count) (removelast runs)
+  | Some f => exists pad, concat runs = l ++ repeat f pad /\ Z.of_nat pad < count /\
+              Forall (fun r => lenZ r = count) runs
+  end.
+
+Definition with_fill {A} (fill : option A) (b : list (list A)) : list (list A) :=
+  match fill with Some f => map (fun c => c ++ [f]) b | None => b end.
+
+(* slice: exactly [count] runs; the first [len mod count] have one item more than the others
+   (so run lengths differ by at most 1); the chunks concatenate to the input; with a fill
+   value exactly the short runs are extended by it *)
+Definition SliceLaw {A} (count : Z) (fill : option A) (l : list A) (runs : list (list A)) : Prop :=
+  exists a b, runs = a ++ with_fill fill b /\ concat (a ++ b) = l /\
+              lenZ a = lenZ l mod count /\ lenZ (a ++ b) = count /\
+              Forall (fun c => lenZ c = lenZ l / count + 1) a /\ Forall (fun c => lenZ c = lenZ l / count) b.
+
+(* "none of them panics": the outcome is a value or an error of the template engine *)
+Definition safe {A} (o : outcome A) : Prop :=
+  match o with Panic | OutOfGas => False | _ => True end.
